@@ -199,7 +199,7 @@ def nonrand_compound(tier):
     bs = [('lit', 1), ('ulit', 2, 2), ('lit', -1)]
     if tier != 'quick':
         bs += [('ulit', 5, 3), ('lit', 3)]
-    for rel in ref.REL:
+    for rel in (ref.REL if tier != 'quick' else ('==', '<', '>=')):
         for op in ref.ARI:
             for b in bs:
                 out.append(('expr', ('bin', rel, P_, ('bin', op, X_, b))))
